@@ -1,11 +1,14 @@
 import BromeliaVerif.Drv.C17
+import BromeliaVerif.Drv.C18
+import BromeliaVerif.Drv.C20
 /-! Line-protocol driver: one operation per input line, one answer per output line.
 Built as the native executable `driver`; imports models, specifications and generated tables only. -/
 open BV.Drv
 
 def step (line : String) : String :=
   let ws := (line.splitOn " ").filter (· ≠ "")
-  match opC17 ws with
+  let handlers : List (List String → Option String) := [opC17, opC18, opC20]
+  match handlers.findSome? (fun h => h ws) with
   | some r => r
   | none => "bad-op"
 
